@@ -7,7 +7,8 @@ import kernel
 COQ_PROPS = 'props/C04.v'
 PARTIAL = ('real kernel: variance/covariance = LPU double sums, symmetry, cov(y,y)=variance, set->get proved for all vector '
            'lengths; Cauchy-Schwarz: cov^2 <= var var, |get_correlation| <= 1 for results and |r_ij| <= 1 in every reachable state '
-           'with a PSD declared matrix; the uncertain-complex 2x2 variance is validated by '
+           'with a PSD declared matrix; a covariance matrix declared with ucomplex is reproduced (variances and covariance of the '
+           'two components, both orders, every reachable state); variance()/.u/.r of derived complex results are validated by '
            'correspondence/oracle only; set_correlation(0.0) after a non-zero declaration is a known finding')
 ASSUMPTIONS = ['rounding of the float sums (math.fsum modelled exactly, other additions bit-exact in correspondence)']
 TRUSTED = ['Coq Reals library']
